@@ -218,13 +218,15 @@ def run(ctx):
         ctx.require(r in reasons, "no RSA candidate of reference class '%s' was offered" % r)
     rbits = {c[1] for c in cl if c[0] in ("v15", "pss")}
     ctx.require({1024, 1025, 1031, 1032, 512} <= rbits and (q or 2048 in rbits), "RSA modulus sizes missing: %s" % sorted(rbits))
-    tags = {c[4] for c in cl if c[0] in ("dsa", "ecdsa") and len(c) == 8}
+    dcl = [c for c in cl if c[0] in ("dsa", "ecdsa") and len(c) == 8 and c[2] in ("det", "fips")]
+    tags = {c[4] for c in dcl}
     for t in ("bit-flip", "(r,q-s)", "(q,s)", "(r,0)", "(r+q,s)", "der/seq-long-form-82", "der/r-leading-00", "der/seq-indefinite",
               "der/trailing-00-inside", "der/trailing-00-outside", "der/extra-integer", "der/constructed-integer-r", "truncated"):
         ctx.require(t in tags, "DSS candidate class '%s' never offered" % t)
-    ctx.require(any(c[0] in ("dsa", "ecdsa") and len(c) == 8 and c[4] == "(r,q-s)" and c[7] == "accept" for c in cl),
+    ctx.require(any(c[4] == "(r,q-s)" and c[7] == "accept" and c[5] == "accept" for c in dcl),
                 "(r, q-s) was never accepted: the reference-valid non-emitted signature path is dead")
-    ctx.require(any(c[2] == "tape" and c[5] >= 2 for c in cl if c[0] in ("dsa", "ecdsa") and len(c) == 8),
+    ctx.require(any(c[2] == "tape" and c[5] >= 2 for c in cl if c[0] in ("dsa", "ecdsa") and len(c) == 8) and
+                any(c[2] == "tape" and c[6] == "k=q-1" for c in cl if c[0] in ("dsa", "ecdsa") and len(c) == 8),
                 "no entropy tape with a rejected nonce draw was executed")
     edc = [c for c in cl if c[0] == "eddsa-crafted"]
     for cv in ("ed25519", "ed448"):
@@ -234,7 +236,7 @@ def run(ctx):
                     "%s: x = 0 with sign bit encodings not executed" % cv)
         ctx.require(any(c[1] == cv and c[5] == "0" and c[8] == "accept" and c[6] == "accept" for c in edc),
                     "%s: no crafted small-order signature was accepted by library and reference" % cv)
-        ctx.require(any(c[0] == "eddsa" and c[1] == cv and c[4] == "bit-flip" for c in cl), "%s: no bit flips" % cv)
+        ctx.require(any(c[0] == "eddsa" and len(c) == 8 and c[1] == cv and c[4] == "bit-flip" for c in cl), "%s: no bit flips" % cv)
     ctx.require(any(c[1] == "ed448" and c[4].startswith("last octet") for c in edc), "ed448: spare-bit encodings of R not executed")
     ctx.require(len(cl) > (900 if q else 2500), "fewer behaviour classes than the alphabets must produce: %d" % len(cl))
     ctx.require(not a.caps, "an enumeration was capped")
